@@ -149,10 +149,9 @@ package tls
 // calls (the heap and the result are unknown afterwards), so only memory safety of the
 // function's own code is checked (see /verif/notes/negotiate.md).
 //@ func selectCipherSuite
-//@   requires ok != nil
-//@   loop 1 invariant 0 <= it
-//@   loop 2 invariant 0 <= it
-//@   maypanic
+//@   requires nonnil(ok)
+//@   uses purefuncs
+//@   ensures [sound] result != nil ==> apply(ok, result) && exists(i, 0, len(ids), ids[i] == result.id) && exists(k, 0, len(supportedIDs), supportedIDs[k] == result.id)
 //@   modifies all
 
 // ---------------------------------------------------------------- handshake_client.go: ALPN
